@@ -18,7 +18,8 @@ LEVEL = 'exploration'
 RULE = ('inputs: lexical soups (random sequences of identifiers incl. curated non-ASCII ones, every numeric / '
         'string / regex spelling of the pools, all punctuators, keywords, single- and multi-line comments, string '
         'continuations with each terminator) joined by random ES5 white space and every line-terminator kind '
-        '(incl. CR directly followed by LF across token boundaries), plus generated programs and the corpus; '
+        '(incl. CR directly followed by LF across token boundaries), plus generated programs and the corpus; every text '
+        'also through one of Lexer() / Lexer(with_comments=True) / token() calls (same audit, same non-comment tokens); '
         'a case = one text that lexes without error; non-trivial = at least 3 tokens and at least one line '
         'terminator or multi-character punctuator.')
 ASSUMPTIONS = ['ES5 white space = TAB VT FF SP NBSP BOM + Unicode Zs; line terminators = LF CR LS PS (CRLF one); '
